@@ -29,6 +29,9 @@ func TermExpr(t, x string) string {
 }
 
 func (d *Decl) ctor(t, term string) string {
+	if strings.HasPrefix(t, "I") {
+		return "&T" + strings.TrimPrefix(t, "I") + "{R: " + term + "}"
+	}
 	b := base(t)
 	amp := ""
 	if isPtr(t) {
@@ -125,7 +128,7 @@ func (d *Decl) UsesCtx() bool {
 			}
 		}
 	}
-	return d.Target == "ctx"
+	return d.Target == "ctx" || d.Prelude != ""
 }
 
 // EmitBody emits type definitions, provider functions and the Inject declaration (without the
@@ -300,6 +303,12 @@ func (d *Decl) Emit(pkg string) string {
 	}
 	sb.WriteString("\t\"github.com/mazrean/kessoku\"\n\t\"verif/rt\"\n)\n\nvar _ = rt.Call\n\n")
 	sb.WriteString("// " + d.Spec() + "\n\n")
+	switch d.Prelude {
+	case "ctx-injector":
+		sb.WriteString("type X9 struct{ R string }\n\nfunc Pre9(c context.Context) *X9 { return &X9{R: \"pre\"} }\n\nvar _ = kessoku.Inject[*X9](\"Pre\", kessoku.Provide(Pre9))\n\n")
+	case "pkg-ident-ctx":
+		sb.WriteString("// a package-level identifier that happens to be called ctx\nvar ctx = context.Background\n\n")
+	}
 	sb.WriteString(d.EmitBody(true))
 	return sb.String()
 }
